@@ -62,7 +62,7 @@ func (c *Ctx) deployShape(rule string) *deployShape {
 			c.undecided(rule, "deployTargetsIntoService/UpdateLoadBalancer", cs.pos(), "slot update by go/defer (unrecognised form)")
 			return nil
 		}
-		if call.Call.Args[1] == ssa.Value(d.newLB) {
+		if sameBalancer(call.Call.Args[1], d.newLB) {
 			if d.update != nil {
 				c.undecided(rule, "deployTargetsIntoService/UpdateLoadBalancer", cs.pos(), "the new balancer is published twice (unrecognised form)")
 				return nil
@@ -102,10 +102,10 @@ func r011(c *Ctx, rule string) {
 	if d == nil {
 		return
 	}
-	lb := ssa.Value(d.newLB)
-	c.ob(rule, "deploy/gate-is-on-the-new-balancer", d.wait.Pos(), d.wait.Call.Args[0] == lb, true,
+	_ = ssa.Value(d.newLB)
+	c.ob(rule, "deploy/gate-is-on-the-new-balancer", d.wait.Pos(), sameBalancer(d.wait.Call.Args[0], d.newLB), true,
 		"WaitUntilHealthy must be invoked on the value returned by NewLoadBalancer")
-	c.ob(rule, "deploy/published-balancer-is-the-gated-one", d.update.Pos(), len(d.update.Call.Args) >= 2 && d.update.Call.Args[1] == lb, true,
+	c.ob(rule, "deploy/published-balancer-is-the-gated-one", d.update.Pos(), len(d.update.Call.Args) >= 2 && sameBalancer(d.update.Call.Args[1], d.newLB), true,
 		"UpdateLoadBalancer must publish the value returned by NewLoadBalancer")
 	if d.waitErr == nil {
 		c.ob(rule, "deploy/gate-result-used", d.wait.Pos(), false, true, "the error of WaitUntilHealthy is discarded")
@@ -122,27 +122,44 @@ func r011(c *Ctx, rule string) {
 		c.ob(rule, "deploy/slot-undo-restores-replaced-balancer", rs.Pos(), ok, true,
 			"any further slot update in the deploy routine must put the replaced balancer back into the same slot of the same service, on the branch where installService failed")
 	}
-	// the failing branch reports failure, disposes the new balancer, publishes nothing
+	// the failing branch reports failure, disposes the new balancer, publishes nothing - path by path (the gate may sit
+	// in a helper expanded in place, whose error arrives merged with other errors)
 	dispose := c.method("LoadBalancer", "Dispose")
 	n := 0
-	for _, ret := range normalReturns(d.fn) {
-		_, nonNil := nilKnowledge(ret, sameAs(d.waitErr))
+	ps, complete := enumPathsX(d.fn, func(*ssa.Return) bool { return true }, 4096)
+	if !complete {
+		c.undecided(rule, "deploy/unhealthy-branch", d.fn.Pos(), "too many paths through the deploy routine to enumerate")
+	}
+	type verdict struct{ errOK, dispOK bool }
+	byRet := map[*ssa.Return]*verdict{}
+	var order []*ssa.Return
+	for _, p := range ps {
+		_, nonNil := nilKnowledgeOf(p.conds, sameAs(d.waitErr))
 		if !nonNil {
 			continue
 		}
 		n++
-		res := lastRet(ret)
-		c.ob(rule, "deploy/unhealthy-branch-returns-error", ret.Pos(), !isNilConst(res), true,
-			"on the unhealthy branch the command must report a non-nil error")
-		disposed := false
-		for _, cs := range callsTo(d.fn, dispose) {
-			if cs.common().Args[0] == lb && dominates(cs.instr, ret) {
-				if _, nn := nilKnowledge(cs.instr, sameAs(d.waitErr)); nn {
-					disposed = true
-				}
-			}
+		v := byRet[p.ret]
+		if v == nil {
+			v = &verdict{true, true}
+			byRet[p.ret] = v
+			order = append(order, p.ret)
 		}
-		c.ob(rule, "deploy/unhealthy-branch-disposes-new-balancer", ret.Pos(), disposed, true,
+		res := p.pathValue(lastRet(p.ret))
+		if isNilConst(res) {
+			v.errOK = false
+		}
+		if !p.passes(func(in ssa.Instruction) bool {
+			call, ok := in.(*ssa.Call)
+			return ok && isCallTo(call.Common(), dispose) && sameBalancer(call.Call.Args[0], d.newLB)
+		}) {
+			v.dispOK = false
+		}
+	}
+	for _, ret := range order {
+		c.ob(rule, "deploy/unhealthy-branch-returns-error", ret.Pos(), byRet[ret].errOK, true,
+			"on the unhealthy branch the command must report a non-nil error")
+		c.ob(rule, "deploy/unhealthy-branch-disposes-new-balancer", ret.Pos(), byRet[ret].dispOK, true,
 			"on the unhealthy branch the new balancer must be disposed (probes stopped) before returning")
 	}
 	c.ob(rule, "deploy/unhealthy-branch-exists", d.wait.Pos(), n >= 1, true, "there must be a return taken when the wait fails")
@@ -1110,4 +1127,14 @@ func r017(c *Ctx, rule string) {
 		}
 		c.ob(rule, "CommandHandler."+pair[0]+"/returns-router-error", h.Pos(), ok, true, "")
 	}
+}
+
+// sameBalancer: v is the balancer made by the NewLoadBalancer call nb - directly, or merged with the nil a helper that
+// builds-and-gates it returns on its failing ways (`lb, err := newHealthyLoadBalancer(...)` expanded in place).
+func sameBalancer(v ssa.Value, nb *ssa.Call) bool {
+	if nb == nil {
+		return false
+	}
+	r := resolve(v)
+	return r == ssa.Value(nb) || nonNilSource(r) == ssa.Value(nb)
 }
